@@ -925,6 +925,45 @@ def run_limit(ctx):
                                   message="get_downsampled_scatter after reset_filter() "
                                           "differs from a fresh dataset")
                 ctx.count("limit_cases_with_reset_filter")
+            if idx % 3 == 1 and npass >= 4:
+                # the limit of a hierarchy member is the member's own setting: it keeps
+                # selecting min(limit, eligible) of the member's events while the parent's
+                # limit (inherited once, when the member was created) changes
+                import dclab
+                root = _build_ds(cols, dict(recipe, limit=int(rng.choice([0, npass - 1]))))
+                child = dclab.new_dataset(root)
+                own = int(rng.integers(1, npass))
+                child.config["filtering"]["limit events"] = own
+                child.apply_filter()
+                hist = [["child limit", own]]
+                for plim in [int(v) for v in rng.choice([0, npass - 1, npass, max(own - 1, 1),
+                                                         own + 1, n + 5], 3)]:
+                    root.config["filtering"]["limit events"] = plim
+                    hist.append(["parent limit", plim])
+                    if rng.random() < 0.5:
+                        child.rejuvenate()
+                    else:
+                        child.apply_filter()
+                    elig = len(child)
+                    got = np.array(child.filter.all)
+                    exp_n = min(own, elig)
+                    ctx.check("limit.count", len(got) == elig and int(got.sum()) == exp_n,
+                              lambda: {"history": hist, "eligible_in_member": elig,
+                                       "selected": int(got.sum()), "member_limit_set": own,
+                                       "member_limit_now":
+                                           child.config["filtering"]["limit events"]},
+                              message=f"hierarchy member with its own 'limit events'={own} and "
+                                      f"{elig} eligible events selects {int(got.sum())}, "
+                                      f"statement demands {exp_n}")
+                    p = {"xax": feats[0], "yax": feats[1 % len(feats)], "downsample": 0}
+                    r1, e1 = _scatter(child, p)
+                    if e1 is None:
+                        ctx.check("scatter.count", len(r1[0]) <= exp_n,
+                                  lambda: {"history": hist, "returned": len(r1[0]),
+                                           "selected_expected": exp_n},
+                                  message="the scatter data of a limited hierarchy member holds "
+                                          "more events than its limit selects")
+                ctx.count("limit_cases_hierarchy_member_own_limit")
             if idx % 499 == 0:
                 ctx.sample({"kind": "limit", "n": n, "n_passing": npass, "limits": seq})
         except Exception as exc:
